@@ -271,7 +271,7 @@ def yaml_emitter_keeps_order(ctx: Ctx) -> None:
 
 @rule("C04", "R5.order", "ORDER",
       "modules and nets are written by iterating the lists in order and read by iterating the document in order: no "
-      "sorting and no set on either side", floor=4)
+      "sorting and no set on either side, and the YAML emitter is the insertion-order-preserving (round-trip) flavour", floor=4)
 def r5(ctx: Ctx) -> None:
     for rel, q in [(YWRITE, "dump_yaml_modules"), (YWRITE, "dump_yaml_edges"), (YREAD, "parse_yaml_modules"), (YREAD, "parse_yaml_edges"),
                    (YREAD, "parse_yaml_netlist"), (YWRITE, "dump_yaml_rectangles"), (YREAD, "parse_yaml_rectangles")]:
